@@ -1,50 +1,13 @@
-// Package sibling is engine E6: a structure-gated comparison of the arithmetic that internal/fp ported from
-// GOROOT/src/strconv. Both functions are normalised (locals alpha-renamed by first use, compound assignments
-// expanded, literals by value, float64info fields substituted) and walked in parallel. A difference is reported
-// only when the shapes match and a leaf (constant, operator, name) differs at a matched position; if the shapes
-// diverge the pair is recorded as not comparable and nothing is reported.
+// Package sibling is engine E6: the arithmetic that internal/fp ported from strconv is compared with the strconv of
+// the GOROOT the analysed program is built with, by lockstep co-execution of the two SSA forms (package coexec).
 package sibling
 
 import (
-	"fmt"
-	"go/ast"
-	"go/constant"
-	"go/parser"
-	"go/token"
 	"os"
 	"os/exec"
-	"path/filepath"
 	"runtime"
 	"strings"
-
-	"rjverif/internal/core"
 )
-
-type Diff struct {
-	Path, Here, There, Context string
-	Pos                        token.Pos
-}
-
-type Pair struct {
-	Name, Other string
-	Comparable  bool
-	Why         string
-	Positions   int
-	Diffs       []Diff
-}
-
-type Report struct {
-	Pairs      []Pair
-	Comparable int
-	GoVersion  string
-}
-
-type node struct {
-	kind string
-	val  string
-	kids []*node
-	pos  token.Pos
-}
 
 func goroot() string {
 	cmd := exec.Command("go", "env", "GOROOT")
@@ -57,327 +20,3 @@ func goroot() string {
 	return runtime.GOROOT()
 }
 
-// names of the functions compared: fp name -> strconv name ("T.m" for methods).
-var pairs = []struct{ here, there string }{
-	{"eiselLemire64", "eiselLemire64"},
-	{"rightShift", "rightShift"},
-	{"leftShift", "leftShift"},
-	{"shouldRoundUp", "shouldRoundUp"},
-	{"prefixIsLessThan", "prefixIsLessThan"},
-	{"trim", "trim"},
-	{"decimal.Shift", "decimal.Shift"},
-	{"decimal.RoundedInteger", "decimal.RoundedInteger"},
-	{"decimal.floatBits", "decimal.floatBits"},
-	{"atof64exact", "atof64exact"},
-}
-
-// Compare runs the comparison.
-func Compare(w *core.World) (*Report, error) {
-	root := goroot()
-	dir := filepath.Join(root, "src", "strconv")
-	fset := token.NewFileSet()
-	there := map[string]*ast.FuncDecl{}
-	for _, f := range []string{"eisel_lemire.go", "decimal.go", "atof.go"} {
-		af, err := parser.ParseFile(fset, filepath.Join(dir, f), nil, parser.SkipObjectResolution)
-		if err != nil {
-			return nil, fmt.Errorf("cannot parse %s: %v", filepath.Join(dir, f), err)
-		}
-		for _, d := range af.Decls {
-			if fd, ok := d.(*ast.FuncDecl); ok {
-				there[core.DeclName(fd)] = fd
-			}
-		}
-	}
-	rep := &Report{}
-	if b, err := os.ReadFile(filepath.Join(root, "VERSION")); err == nil {
-		rep.GoVersion = strings.Fields(string(b))[0]
-	}
-	for _, p := range pairs {
-		pr := Pair{Name: p.here, Other: p.there}
-		hd := w.FuncDecl(w.FP, p.here)
-		td := there[p.there]
-		switch {
-		case hd == nil:
-			pr.Why = "function not present in internal/fp"
-		case td == nil:
-			pr.Why = "function not present in this GOROOT's strconv"
-		default:
-			hn := normFunc(hd, true)
-			tn := normFunc(td, false)
-			pr.Comparable = true
-			cmp(hn, tn, "body", &pr)
-		}
-		if pr.Comparable {
-			rep.Comparable++
-		} else {
-			pr.Diffs = nil
-		}
-		rep.Pairs = append(rep.Pairs, pr)
-	}
-	return rep, nil
-}
-
-func cmp(a, b *node, path string, pr *Pair) {
-	if !pr.Comparable {
-		return
-	}
-	if a.kind != b.kind || len(a.kids) != len(b.kids) {
-		pr.Comparable = false
-		pr.Why = fmt.Sprintf("at %s: %s/%d children here, %s/%d in strconv", path, a.kind, len(a.kids), b.kind, len(b.kids))
-		return
-	}
-	pr.Positions++
-	if a.val != b.val {
-		pr.Diffs = append(pr.Diffs, Diff{Path: path, Here: a.val, There: b.val, Context: a.kind, Pos: a.pos})
-	}
-	for i := range a.kids {
-		cmp(a.kids[i], b.kids[i], fmt.Sprintf("%s/%s[%d]", path, a.kind, i), pr)
-	}
-}
-
-type normalizer struct {
-	names map[string]string // local name -> v<k>
-	local map[string]bool
-	here  bool
-}
-
-func normFunc(fd *ast.FuncDecl, here bool) *node {
-	n := &normalizer{names: map[string]string{}, local: map[string]bool{}, here: here}
-	// locals: receiver, params, results, := definitions, var declarations, range variables, labels
-	addField := func(fl *ast.FieldList) {
-		if fl == nil {
-			return
-		}
-		for _, f := range fl.List {
-			for _, id := range f.Names {
-				n.local[id.Name] = true
-			}
-		}
-	}
-	addField(fd.Recv)
-	addField(fd.Type.Params)
-	addField(fd.Type.Results)
-	ast.Inspect(fd.Body, func(x ast.Node) bool {
-		switch t := x.(type) {
-		case *ast.AssignStmt:
-			if t.Tok == token.DEFINE {
-				for _, l := range t.Lhs {
-					if id, ok := l.(*ast.Ident); ok {
-						n.local[id.Name] = true
-					}
-				}
-			}
-		case *ast.ValueSpec:
-			for _, id := range t.Names {
-				n.local[id.Name] = true
-			}
-		case *ast.RangeStmt:
-			for _, e := range []ast.Expr{t.Key, t.Value} {
-				if id, ok := e.(*ast.Ident); ok {
-					n.local[id.Name] = true
-				}
-			}
-		case *ast.LabeledStmt:
-			n.local[t.Label.Name] = true
-		}
-		return true
-	})
-	// the float format parameter of strconv (flt *floatInfo) is not a local in the fp port: its fields are constants
-	delete(n.local, "flt")
-	// pre-assign names to the value parameters in order so that parameter order matters, not spelling
-	for _, fl := range []*ast.FieldList{fd.Recv, fd.Type.Params, fd.Type.Results} {
-		if fl == nil {
-			continue
-		}
-		for _, f := range fl.List {
-			for _, id := range f.Names {
-				if id.Name == "flt" {
-					continue
-				}
-				n.rename(id.Name)
-			}
-		}
-	}
-	return n.stmt(fd.Body)
-}
-
-func (n *normalizer) rename(name string) string {
-	if !n.local[name] {
-		return name
-	}
-	if v, ok := n.names[name]; ok {
-		return v
-	}
-	v := fmt.Sprintf("v%d", len(n.names)+1)
-	n.names[name] = v
-	return v
-}
-
-func lit(kind, val string, pos token.Pos) *node { return &node{kind: kind, val: val, pos: pos} }
-
-func (n *normalizer) expr(e ast.Expr) *node {
-	switch t := e.(type) {
-	case nil:
-		return lit("nil", "", token.NoPos)
-	case *ast.ParenExpr:
-		return n.expr(t.X)
-	case *ast.BasicLit:
-		v := constant.MakeFromLiteral(t.Value, t.Kind, 0)
-		s := v.ExactString()
-		if t.Kind == token.CHAR || t.Kind == token.INT {
-			s = constant.ToInt(v).ExactString()
-		}
-		return lit("lit", s, t.Pos())
-	case *ast.Ident:
-		return lit("id", n.rename(t.Name), t.Pos())
-	case *ast.SelectorExpr:
-		// flt.mantbits etc. -> the package constants of the fp port
-		if id, ok := t.X.(*ast.Ident); ok && (id.Name == "flt" || id.Name == "float64info") {
-			return lit("id", t.Sel.Name, t.Pos())
-		}
-		return &node{kind: "sel", val: t.Sel.Name, kids: []*node{n.expr(t.X)}, pos: t.Pos()}
-	case *ast.BinaryExpr:
-		return &node{kind: "bin", val: t.Op.String(), kids: []*node{n.expr(t.X), n.expr(t.Y)}, pos: t.OpPos}
-	case *ast.UnaryExpr:
-		return &node{kind: "un", val: t.Op.String(), kids: []*node{n.expr(t.X)}, pos: t.Pos()}
-	case *ast.StarExpr:
-		return &node{kind: "star", kids: []*node{n.expr(t.X)}, pos: t.Pos()}
-	case *ast.IndexExpr:
-		return &node{kind: "index", kids: []*node{n.expr(t.X), n.expr(t.Index)}, pos: t.Pos()}
-	case *ast.SliceExpr:
-		return &node{kind: "slice", kids: []*node{n.expr(t.X), n.expr(t.Low), n.expr(t.High), n.expr(t.Max)}, pos: t.Pos()}
-	case *ast.CallExpr:
-		// no-op conversions to the same basic type are kept (they are part of the shape); the one known spelling
-		// difference — uint(x) around an already-uint expression — is handled by dropping conversions whose name is a basic type
-		if id, ok := t.Fun.(*ast.Ident); ok && len(t.Args) == 1 && isBasicTypeName(id.Name) {
-			// conversions between the word-sized integer types are spelling (signed shift counts are legal since Go 1.13;
-			// the port dropped some of them): compared transparently. Narrowing conversions stay part of the shape.
-			switch id.Name {
-			case "int", "uint", "int64", "uint64":
-				return n.expr(t.Args[0])
-			}
-			return &node{kind: "conv", val: id.Name, kids: []*node{n.expr(t.Args[0])}, pos: t.Pos()}
-		}
-		k := &node{kind: "call", kids: []*node{n.expr(t.Fun)}, pos: t.Pos()}
-		for _, a := range t.Args {
-			k.kids = append(k.kids, n.expr(a))
-		}
-		return k
-	case *ast.CompositeLit:
-		k := &node{kind: "complit", pos: t.Pos()}
-		for _, el := range t.Elts {
-			k.kids = append(k.kids, n.expr(el))
-		}
-		return k
-	case *ast.KeyValueExpr:
-		return &node{kind: "kv", kids: []*node{n.expr(t.Key), n.expr(t.Value)}, pos: t.Pos()}
-	}
-	return lit(fmt.Sprintf("%T", e), "", e.Pos())
-}
-
-func isBasicTypeName(s string) bool {
-	switch s {
-	case "int", "uint", "int64", "uint64", "int32", "uint32", "byte", "float64", "float32", "uint8", "rune":
-		return true
-	}
-	return false
-}
-
-func (n *normalizer) block(list []ast.Stmt) *node {
-	k := &node{kind: "block"}
-	for _, s := range list {
-		if _, ok := s.(*ast.EmptyStmt); ok {
-			continue
-		}
-		k.kids = append(k.kids, n.stmt(s))
-	}
-	return k
-}
-
-func (n *normalizer) stmt(s ast.Stmt) *node {
-	switch t := s.(type) {
-	case nil:
-		return lit("nil", "", token.NoPos)
-	case *ast.BlockStmt:
-		return n.block(t.List)
-	case *ast.ExprStmt:
-		return &node{kind: "expr", kids: []*node{n.expr(t.X)}, pos: t.Pos()}
-	case *ast.IncDecStmt:
-		op := "+"
-		if t.Tok == token.DEC {
-			op = "-"
-		}
-		x := n.expr(t.X)
-		return &node{kind: "assign", val: "=", kids: []*node{x, {kind: "bin", val: op, kids: []*node{n.expr(t.X), lit("lit", "1", t.Pos())}, pos: t.Pos()}}, pos: t.Pos()}
-	case *ast.AssignStmt:
-		if t.Tok != token.ASSIGN && t.Tok != token.DEFINE && len(t.Lhs) == 1 && len(t.Rhs) == 1 {
-			op := strings.TrimSuffix(t.Tok.String(), "=")
-			return &node{kind: "assign", val: "=", kids: []*node{n.expr(t.Lhs[0]), {kind: "bin", val: op, kids: []*node{n.expr(t.Lhs[0]), n.expr(t.Rhs[0])}, pos: t.TokPos}}, pos: t.Pos()}
-		}
-		k := &node{kind: "assign", val: "=", pos: t.Pos()}
-		// right-hand sides first so that first-use numbering follows evaluation order in both versions
-		var rhs []*node
-		for _, r := range t.Rhs {
-			rhs = append(rhs, n.expr(r))
-		}
-		for _, l := range t.Lhs {
-			k.kids = append(k.kids, n.expr(l))
-		}
-		k.kids = append(k.kids, rhs...)
-		return k
-	case *ast.DeclStmt:
-		k := &node{kind: "decl", pos: t.Pos()}
-		if gd, ok := t.Decl.(*ast.GenDecl); ok {
-			for _, sp := range gd.Specs {
-				if vs, ok := sp.(*ast.ValueSpec); ok {
-					for i, id := range vs.Names {
-						kk := &node{kind: "var", kids: []*node{lit("id", n.rename(id.Name), id.Pos())}}
-						if i < len(vs.Values) {
-							kk.kids = append(kk.kids, n.expr(vs.Values[i]))
-						} else {
-							kk.kids = append(kk.kids, lit("zero", "", id.Pos()))
-						}
-						k.kids = append(k.kids, kk)
-					}
-				}
-			}
-		}
-		return k
-	case *ast.IfStmt:
-		return &node{kind: "if", kids: []*node{n.stmt(t.Init), n.expr(t.Cond), n.stmt(t.Body), n.stmt(t.Else)}, pos: t.Pos()}
-	case *ast.ForStmt:
-		return &node{kind: "for", kids: []*node{n.stmt(t.Init), n.expr(t.Cond), n.stmt(t.Post), n.stmt(t.Body)}, pos: t.Pos()}
-	case *ast.RangeStmt:
-		return &node{kind: "range", kids: []*node{n.expr(t.Key), n.expr(t.Value), n.expr(t.X), n.stmt(t.Body)}, pos: t.Pos()}
-	case *ast.ReturnStmt:
-		k := &node{kind: "return", pos: t.Pos()}
-		for _, r := range t.Results {
-			k.kids = append(k.kids, n.expr(r))
-		}
-		return k
-	case *ast.BranchStmt:
-		lab := ""
-		if t.Label != nil {
-			lab = n.rename(t.Label.Name)
-		}
-		return lit("branch", t.Tok.String()+" "+lab, t.Pos())
-	case *ast.LabeledStmt:
-		return &node{kind: "label", val: n.rename(t.Label.Name), kids: []*node{n.stmt(t.Stmt)}, pos: t.Pos()}
-	case *ast.SwitchStmt:
-		k := &node{kind: "switch", kids: []*node{n.stmt(t.Init), n.expr(t.Tag)}, pos: t.Pos()}
-		for _, c := range t.Body.List {
-			cc := c.(*ast.CaseClause)
-			ck := &node{kind: "case", pos: cc.Pos()}
-			vals := &node{kind: "vals"}
-			for _, v := range cc.List {
-				vals.kids = append(vals.kids, n.expr(v))
-			}
-			ck.kids = append(ck.kids, vals, n.block(cc.Body))
-			k.kids = append(k.kids, ck)
-		}
-		return k
-	case *ast.EmptyStmt:
-		return lit("empty", "", t.Pos())
-	}
-	return lit(fmt.Sprintf("%T", s), "", s.Pos())
-}
